@@ -346,6 +346,74 @@ def run_update(ck_ob, mod, label):
     return n + 3
 
 
+def run_update_small(ck_ob, mod, label, maxlen=48):
+    """tinyjambu_hash_update for every buffer position 0..15 and EVERY input length 0..maxlen, each evaluated as one straight path (position
+    and length concrete, data symbolic): whatever the loop structure, the compressions must be those of the byte stream
+    (buffered bytes || input) cut into 16-byte blocks, and the state afterwards (chaining value, left-over bytes, position) that of the
+    stream machine.  Lengths beyond maxlen are not covered by this rule (the per-class rule with its generic iteration covers all lengths
+    when it recognises the code); a refutation here is a concrete (position, length) with a term that differs"""
+    f = mod.fn("tinyjambu_hash_update")
+    IN = ("arg", 1)
+    li = f.param_index("inlen")
+    where0 = relpath("%s:%d" % (f.file, f.line))
+    n = 0
+    for pz in range(16):
+        bad = None
+        for ln in range(maxlen + 1):
+            def setup(ex_, path, pz=pz):
+                path.lfmem[(ST, 48, 4)] = Lf.c(pz)
+                path.start_lfmem = dict(path.lfmem)
+            ex = make_exec(f, starts=[("posn=%d" % pz, setup)], arg_consts={li: ln})
+            paths = ex.run(max_paths=50)
+            if len(paths) != 1 or paths[0].end[0] != "ret":
+                raise Broken("tinyjambu_hash_update: with buffer position %d and length %d the function is not one straight path (%d paths): not decided by the small-length rule" % (pz, ln, len(paths)))
+            p = paths[0]
+            if any(e[0] in ("cond-data", "load-unknown", "store-unknown", "load-sym", "out-sym", "read-uninit", "CALL", "memcpy-var", "memset-var") for e in p.events):
+                raise Broken("tinyjambu_hash_update: with buffer position %d and length %d the path has accesses / calls / data branches the evaluation does not resolve: not decided by the small-length rule" % (pz, ln))
+            S = words_at(p, ST, 0, 4, True)
+            K = words_at(p, ST, 16, 4, True)
+            stream = [mem_byte(p, ST, 32 + i, True) for i in range(pz)] + [mode.inbyte(IN, i) for i in range(ln)]
+            nblk, r = (pz + ln) // 16, (pz + ln) % 16
+            pev = [e for e in p.events if e[0] == "P"]
+            why = None
+            if len(pev) != 2 * nblk:
+                why = "%d permutation calls where %d block(s) of the stream are complete (2 calls each)" % (len(pev), nblk)
+            else:
+                for j in range(nblk):
+                    blk = stream[16 * j: 16 * j + 16]
+                    B = [mode.le_bytes(blk[4 * i: 4 * i + 4], 4) for i in range(4)]
+                    key = list(K) + [gf2.wnot(b) for b in B]
+                    Ld = [gf2.wxor(S[0], W(0)), S[1], S[2], S[3]]
+                    Ld1 = [gf2.wxor(Ld[0], W(1)), Ld[1], Ld[2], Ld[3]]
+                    e1, e2 = pev[2 * j], pev[2 * j + 1]
+                    for e, want_s, nm in ((e1, Ld, "L"), (e2, Ld1, "L^1")):
+                        got_s, got_k = [list(w) for w in e[3]], [list(w) for w in e[4]]
+                        if e[2] != ROUNDS:
+                            why = why or "block %d: permutation runs %s rounds" % (j, e[2])
+                        elif not mode.words_eq(got_s, want_s):
+                            why = why or "block %d: permutation input is not %s of the chaining value: %s" % (j, nm, mode.first_diff(got_s, want_s))
+                        elif not mode.words_eq(got_k, key):
+                            why = why or "block %d: the block compressed is not bytes %d..%d of the stream (buffered bytes || input): %s" % (j, 16 * j, 16 * j + 15, mode.first_diff(got_k, key))
+                    Q, Q2 = mode.Pw(e1[1]), mode.Pw(e2[1])
+                    S = [gf2.wxor(Q[i], Ld[i]) for i in range(4)]
+                    K = [gf2.wnot(gf2.wxor(Q2[i], Ld1[i])) for i in range(4)]
+                if why is None and not mode.words_eq(words_at(p, ST, 0, 8), S + K):
+                    why = "chaining value after the call: %s" % mode.first_diff(words_at(p, ST, 0, 8), S + K)
+                left = stream[16 * nblk:]
+                if why is None and not all(mem_byte(p, ST, 32 + i) == left[i] for i in range(r)):
+                    why = "the %d left-over byte(s) of the stream are not at the start of the block buffer" % r
+                if why is None and p.lfmem.get((ST, 48, 4)) != Lf.c(r):
+                    why = "buffer position becomes %s, expected %d" % (p.lfmem.get((ST, 48, 4)), r)
+            if why is not None and bad is None:
+                bad = (ln, why)
+        ck_ob(bad is None, "SMALL", f.name, "stream-machine(posn=%d,len=0..%d)[%s]" % (pz, maxlen, label),
+              "with %d byte(s) buffered, for every input length 0..%d: the compressions are those of (buffered bytes || input) cut into 16-byte blocks, in order, on the chained value; "
+              "left-over bytes and position as the stream machine leaves them (each length one straight path, data symbolic)" % (pz, maxlen),
+              "with %d byte(s) buffered and an input of %s byte(s): %s" % (pz, bad[0] if bad else "?", bad[1] if bad else ""), where0)
+        n += 1
+    return n
+
+
 def run_finalize(ck_ob, mod, label):
     f = mod.fn("tinyjambu_hash_finalize")
     OUT = ("arg", 1)
@@ -532,4 +600,26 @@ def premises(ck, mod, rule, label="H/N0", perm=True):
             def __getattr__(self, n_):
                 return getattr(self._ck, n_)
         C05.c_backend_rule(_R(ck), mod, "256", label)
+    return n
+
+
+def run_update_both(ck, ck_ob, mod, label, maxlen=48):
+    """the small-length rule (shape-independent, lengths 0..maxlen) and the per-class rule (all lengths, needs a recognised shape).  A shape the
+    per-class rule does not recognise is exit 2 unless the small-length rule has already refuted a concrete (position, length)"""
+    n = 0
+    small_broken = None
+    try:
+        n += run_update_small(ck_ob, mod, label, maxlen=maxlen)
+    except Broken as e:
+        small_broken = e
+    nviol = len(ck.violations)
+    try:
+        n += run_update(ck_ob, mod, label)
+    except Broken as e:
+        if not ck.violations:
+            raise
+        ck.note("per-class rule for tinyjambu_hash_update not decided: %s" % str(e)[:200])
+        return n
+    if small_broken is not None and len(ck.violations) == nviol:
+        ck.note("small-length rule for tinyjambu_hash_update not decided: %s" % str(small_broken)[:200])
     return n
